@@ -145,6 +145,9 @@ def check(ctx):
             if len(lc.generators) == 1 and not gen.ifs and is_self_attr(gen.iter, '_buffer') and isinstance(gen.target, ast.Name) \
                     and ast.unparse(lc.elt) == f'{gen.target.id}[1]':
                 okp = True
+            if len(lc.generators) == 1 and not gen.ifs and is_self_attr(gen.iter, '_buffer') and isinstance(gen.target, ast.Tuple) and len(gen.target.elts) == 2 \
+                    and isinstance(gen.target.elts[1], ast.Name) and ast.unparse(lc.elt) == gen.target.elts[1].id:
+                okp = True          # [part for _, part in self._buffer]
     if not okp:
         o.fail(P, 'Buffer.stored_parts', 'return [x[1] for x in self._buffer]', 'stored_parts does not list the stored parts in list order', file=c.mod.path, line=c.node.lineno)
     else:
@@ -466,6 +469,18 @@ def level_pairing(ctx, c, o):
     o.sample({'accept_path': 'stored <=> level += count(arg) once', 'release_path': 'handed(head) <=> pop(0) <=> level -= count(that head)'})
 
 
+def _ifexp_branches(e):
+    """[(expr, 'batch'|'single'|None)] -- a conditional expression on isinstance(self._part, Batch) is split into its two cases"""
+    if isinstance(e, ast.IfExp):
+        t, neg = e.test, False
+        while isinstance(t, ast.UnaryOp) and isinstance(t.op, ast.Not):
+            t, neg = t.operand, not neg
+        if ast.unparse(t) == 'isinstance(self._part, Batch)':
+            a, b = (e.orelse, e.body) if neg else (e.body, e.orelse)
+            return [(a, 'batch'), (b, 'single')]
+    return [(e, None)]
+
+
 def part_counting(ctx, o):
     P = ctx.P
 
@@ -484,20 +499,16 @@ def part_counting(ctx, o):
         ok = False
         if hit and hit[1] == 'method':
             fn = hit[2]
-            p = fn.args.args[0].arg if fn.args.args else 'part'
-            ifs = count_shape(fn, p)
-            if len(ifs) == 1:
-                i = ifs[0]
-                b = [x for x in i.body]
-                e = [x for x in i.orelse]
-                if len(b) == 1 and isinstance(b[0], ast.Return) and ast.unparse(b[0].value) == f'len({p}.parts)' and \
-                        ((len(e) == 1 and isinstance(e[0], ast.Return) and ast.unparse(e[0].value) == '1')):
-                    ok = True
-            rets = [r for r in ast.walk(fn) if isinstance(r, ast.Return)]
-            if len(rets) == 1 and isinstance(rets[0].value, ast.IfExp):
-                v = rets[0].value
-                if ast.unparse(v.test) == f'isinstance({p}, Batch)' and ast.unparse(v.body) == f'len({p}.parts)' and ast.unparse(v.orelse) == '1':
-                    ok = True
+            params = [a_.arg for a_ in fn.args.args if a_.arg != 'self']
+            p = params[0] if params else 'part'
+
+            def m_batch(test, frame, p=p):
+                if isinstance(test, ast.Call) and ast.unparse(test.func) == 'isinstance' and len(test.args) == 2 and ast.unparse(test.args[0]) == p and ast.unparse(test.args[1]) == 'Batch':
+                    return True
+                return None
+            cases = dv.return_cases(ctx, c, '_get_part_count', [('#batch', m_batch)])
+            ok = cases.get(('T',)) == {f'len({p}.parts)'} and cases.get(('F',)) == {'1'}
+            o.stats['buffer_count_cases'] = {k[0]: sorted(v) for k, v in cases.items()}
         if not ok:
             o.fail(P, 'Buffer._get_part_count', 'len(part.parts) if isinstance(part, Batch) else 1', 'the buffer does not count a Batch as len(parts) and a single part as 1',
                    file=c.mod.path, line=c.node.lineno)
@@ -509,10 +520,28 @@ def part_counting(ctx, o):
 
         def hook(an, n, before, after):
             a = n.ast
+            inc = None
             if n.kind == 'stmt' and isinstance(a, ast.AugAssign) and is_self_attr(a.target, '_received_parts_count') and isinstance(a.op, ast.Add):
-                v = ast.unparse(a.value)
-                kind = 'len' if v == 'len(self._part.parts)' else 'one' if v == '1' else 'other'
-                return after.with_flag('cnt2' if any(f.startswith('cnt:') for f in after.flags) else 'cnt:' + kind)
+                inc = a.value
+            elif n.kind == 'stmt' and isinstance(a, ast.Assign) and any(is_self_attr(t, '_received_parts_count') for t in a.targets) and isinstance(a.value, ast.BinOp) \
+                    and isinstance(a.value.op, ast.Add) and is_self_attr(a.value.left, '_received_parts_count'):
+                inc = a.value.right
+            if inc is not None:
+                if isinstance(inc, ast.Name):
+                    r_ = FrameEnv(n.frame).resolve(inc.id)
+                    if r_ is not None:
+                        inc = r_[0]
+                outs = []
+                for br, fl in _ifexp_branches(inc):
+                    v = ast.unparse(br)
+                    kind = 'len' if v == 'len(self._part.parts)' else 'one' if v == '1' else 'other'
+                    s_ = after.with_flag('cnt2' if any(f.startswith('cnt:') for f in after.flags) else 'cnt:' + kind)
+                    if fl:
+                        if ('batch' in s_.flags and fl == 'single') or ('single' in s_.flags and fl == 'batch'):
+                            continue
+                        s_ = s_.with_flag(fl)
+                    outs.append(s_)
+                return outs
             if n.kind == 'stmt' and isinstance(a, ast.Assign) and any(is_self_attr(t, '_received_parts_count') for t in a.targets):
                 return after.with_flag('cnt:other')
             if n.kind == 'stmt' and isinstance(a, ast.Assign) and any(is_self_attr(t, '_part') for t in a.targets) \
